@@ -22,8 +22,12 @@ SPEC = {
              "name is written (request lists, the leading /<name> of the URI, preprocessor paths, template references), and in three "
              "quarters of those with >= 2 scenarios a word sequence is cut at two places so that two different (scenario, request) uses "
              "read the same when joined by an underscore (scenario `order` + request `new_item`, scenario `order_new` + request `item`); "
-             "half of these pairs get a header of the same name with differing values and a third both a body; 30 % of the requests name "
-             "`templater: text` explicitly, the others leave the templater out; URI / header / body templates over source "
+             "half of these pairs get a header of the same name with differing values and a third both a body; 40 % of the requests name "
+             "a templater explicitly - `text`, or (60 % of them) `html`: Go's html/template, for which the interpreter states that each of "
+             "uri / header value / body is a template of its own in HTML text context, so literal text stays as written (the generator's literal "
+             "fragments hold complete plain tags only - checked per request, not assumed), every value is written with & < > \" ' + and NUL "
+             "replaced by &amp; &lt; &gt; &#34; &#39; &#43; U+FFFD and a missing variable prints nothing (internal/sceninterp "
+             "TestHTMLModel compares this statement with the library over the generator's fragments) -, the others leave the templater out; URI / header / body templates over source "
              "rows, variables, own and earlier steps' preprocessor variables and values captured by var/jsonpath, var/header (with "
              "lower/upper/substr/replace) and var/xpath of earlier steps, incl. references to steps that did not run; preprocessors with "
              "[next], [last], [i], variables and earlier steps' values; assert/response (status, body, header, and - added after seeded "
@@ -101,6 +105,11 @@ SPEC = {
                "TestScenarioExecution/names_join_equally_default_templater_same_header_name": 0.025,
                "TestScenarioExecution/names_join_equally_default_templater_both_body": 0.015,
                "TestNextAcrossInstances/names_join_equally_both_rendered_default_templater": 0.04,
+               # the html templater as a dimension (not prompted by a seed)
+               "TestScenarioExecution/templater_html_step_rendered": 0.25, "TestScenarioExecution/templater_html_and_text_steps_in_one_run": 0.2,
+               "TestScenarioExecution/templater_html_value_needs_escaping": 0.03, "TestScenarioExecution/templater_html_missing_var": 0.02,
+               "TestScenarioExecution/templater_html_value_in_uri": 0.15, "TestScenarioExecution/templater_html_value_in_header": 0.2,
+               "TestScenarioExecution/templater_html_value_in_body": 0.07,
                # classes added after seeded defect C15/m13 (HEAD step whose absent body the gun reads under an announced Content-Length)
                "TestScenarioExecution/head_step": 0.12, "TestScenarioExecution/head_step_body_read_content_length_announced": 0.06,
                "TestScenarioExecution/head_step_with_postprocessors_content_length_announced": 0.05,
@@ -132,8 +141,9 @@ SPEC = {
                  "step exactly the pause its own occurrence in the list states (none where none is stated), over whole cycles scenario i must run w_i/gcd times per cycle, and "
                  "[next] must hand out rows 0,1,2,... mod R per scenario and path - to a request that several scenarios list: over all its "
                  "executions in all of them - (exact sequence with one instance, multiset with 1-4)."),
-        "note": ("The html templater, [rand], the randomisation functions, HCL input (C16) and the http2 gun "
-                 "are not exercised. Size assertions: only the documented spellings > < = and never a body of exactly val bytes under < or > "
+        "note": ("[rand], the randomisation functions, HCL input (C16) and the http2 gun "
+                 "are not exercised. The html templater is exercised in HTML text context only (no template whose literal text opens a tag, "
+                 "attribute, script, style or comment in front of an action: what html/template does there is its own large specification). Size assertions: only the documented spellings > < = and never a body of exactly val bytes under < or > "
                  "(the documentation does not say whether the comparison is strict). substr is only generated in the forms substr(from) and substr(0,n), where the documentation "
                  "(from, length) and the implementation (from, end) agree. A [next] path is confined to one scenario, or to one request "
                  "that several scenarios list (with a source of its own), and used at most once per preprocessor (the documentation does not "
